@@ -245,11 +245,16 @@ func c2324specs(prop string) []gw.Spec {
 			post = append(post, e)
 		}
 	}
+	setup := connectSetup("c1", 30)
+	if prop == "C24" {
+		// a registered topic (it gets id 2), so that "PUBLISH(q-1,registered 2)" of a connected client is translatable
+		setup = append(setup, gw.EvC("REGISTER r/9", gw.Register(0, 8, "r/9")))
+	}
 	return []gw.Spec{
 		{Name: prop + ":connect-phase", Cfg: cfg, NewMonitor: func() gw.Monitor {
 			return &c2324mon{prop: prop, maxDepth: depth + 1, alphabet: connecting, corner: pre, used: map[string]bool{}}
 		}},
-		{Name: prop + ":connected", Cfg: cfg, Setup: connectSetup("c1", 30), NewMonitor: func() gw.Monitor {
+		{Name: prop + ":connected", Cfg: cfg, Setup: setup, NewMonitor: func() gw.Monitor {
 			return &c2324mon{prop: prop, maxDepth: depth, alphabet: connected, corner: post, used: map[string]bool{}}
 		}},
 	}
@@ -266,7 +271,7 @@ func runWellFormed(t *testing.T, prop, test string) {
 	if prop == "C23" {
 		rep.Coverage["rule"] = "BFS (depth 3, thorough 4) over connect / subscribe / sleep / wake events plus the corner inputs the property names (broker payloads of 0..70000 bytes on short, predefined and new topics, payloads and new topic names that put the datagram size at 254..258 bytes, a new topic name with multi-octet characters, an 8170-byte new topic name, a 7168-byte REGISTER, CONNECT with keep-alive 0 and with a wrong protocol id, CONNECT while asleep/awake, DISCONNECT / PINGREQ requests in the 3-octet length form, two broker messages at once for a sleeping client); every datagram the gateway sends is decoded by the reference decoder: decodable, type valid gateway->client, length field = size, canonical length form, size <= 8192. (The client-library direction is checked by the client harness part.)"
 	} else {
-		rep.Coverage["rule"] = "BFS (depth 3, thorough 4) over connect / subscribe / sleep / wake events plus malformed-but-decodable client input (reserved topic id type, QoS 1/2 with msg id 0, short topics containing wildcards, SUBSCRIBE QoS 3 / msg id 0 / malformed filters, REGISTER of wildcard names and publishing to them, publishes and a subscription on predefined ids whose configured names are filters or empty, will QoS 3, wildcard will topic, empty WILLTOPIC with the Will flag, empty client id without clean session, PUBREL msg id 0); every packet written to the broker is parsed and validated by an independent MQTT 3.1.1 validator"
+		rep.Coverage["rule"] = "BFS (depth 3, thorough 4) over connect / subscribe / sleep / wake events plus malformed-but-decodable client input (reserved topic id type, QoS 1/2 with msg id 0, short topics containing wildcards, SUBSCRIBE QoS 3 / msg id 0 / malformed filters, REGISTER of wildcard names and publishing to them, QoS -1 publishes on short, predefined and registered topics, publishes and a subscription on predefined ids whose configured names are filters or empty, will QoS 3, wildcard will topic, empty WILLTOPIC with the Will flag, empty client id without clean session, PUBREL msg id 0); every packet written to the broker is parsed and validated by an independent MQTT 3.1.1 validator"
 	}
 	rep.Assumptions = []string{"default schedule", "data values outside the alphabet (e.g. ill-formed UTF-8 in names) are not covered", "C24 does not judge DUP=1 with QoS 0 (C01 demands the client's DUP flag is preserved)"}
 	rep.Finish()
